@@ -52,7 +52,7 @@ theorem hdr_sound (c : ReqCase) : okHdr c (hdrObs c) = true := by
   · simp only [hd, Bool.not_true, Bool.false_eq_true, if_false]
     have hin : S.Http.inDomain c.calls = true := hd
     obtain ⟨r, hr⟩ := Lemmas.Http.foldCalls_some_of_inDomain c.calls
-      { method := upper c.method, url := c.url, headers := [], body := [], lenKnown := true } hin
+      { method := upper c.method, url := c.url, headers := [], body := [], len := some 0 } hin
     simp [buildRequest, hr]
   · simp [hd]
 
